@@ -12,7 +12,8 @@ trap 'rm -rf "$S"; rmdir "${VERIF_SCRATCH:-/var/tmp/verif-scratch}" 2>/dev/null 
 rsync -a --exclude .git /repo/ "$S/repo/"
 rsync -a simrt/ "$S/simrt/"
 rsync -a harness/ "$S/harness/"
-(cd "$S/repo" && PATH=/opt/veriftools/go1.26.8/bin:$PATH "$OLDPWD/bin/simgen" -root "$S/repo" -simrt ../simrt . util html html/core q)
+python3 lib/mkcmdsim.py "$S/repo"
+(cd "$S/repo" && PATH=/opt/veriftools/go1.26.8/bin:$PATH "$OLDPWD/bin/simgen" -root "$S/repo" -simrt ../simrt . util html html/core q cmdsim)
 cp "$S/repo/go.sum" "$S/harness/go.sum"
 (cd "$S/harness" && go1.26.8 test -c -race -trimpath -o "$S/harness.test" . && go1.26.8 test -c -trimpath -o "$S/harness-norace.test" .)
 echo "setup ok"
